@@ -1,12 +1,25 @@
 # Human-written part of MANIFEST.json (tools/gen_manifest.py merges it with registry.py).
-HOOK_COMMITS = []
-NOTES = ("All checks are property-based tests / fuzzing (pgregory.net/rapid v1.3.0 state machines and generators, native go fuzzing "
-         "in thorough tiers) against explicit oracles; see DESIGN.md. ./check <id> rebuilds the harness against /repo's working tree "
-         "on every invocation (go test -c with -overlay), runs sharded over all cores, writes evidence/<id>.json, and handles "
-         "known_findings.json (KNOWN-FINDING lines for listed keys only).")
+HOOK_COMMITS = ["a842bba"]
+NOTES = ("All checks are property-based tests / fuzzing (pgregory.net/rapid v1.3.0 generators and state machines; native go fuzzing "
+         "only in thorough tiers) against explicit oracles; see DESIGN.md. ./check <id> rebuilds the harness against /repo's working tree "
+         "on every invocation (go test -c -tags verif with -modfile/-overlay generated under a scratch directory), runs sharded over all "
+         "cores with seeds derived from VERIF_SEED, writes evidence/<id>.json from the harness' own counters, replays the committed "
+         "reproductions under replays/<id>/ and handles known_findings.json (KNOWN-FINDING lines for listed keys only; a reproducing "
+         "'fixed' entry or any unlisted failure is a VIOLATION). Exit 2 = inconclusive (build error, watchdog), never a verdict.")
 ENGINES = {
     "Q-queues": {"path": "harness/server/c20_queues_test.go", "props": ["C20"], "kind": "model-based PBT (rapid) of the internal queues against slice / stable priority-queue models"},
+    "A-virtual-clock": {"path": "harness/server/ea_engine_test.go, ea_monitor_test.go, ea_gen_test.go, ea_value_test.go", "props": ["C01", "C02", "C03", "C04", "C05", "C06", "C15", "C17"],
+                        "kind": "stateful PBT (rapid): generated LOCK/UNLOCK/clock histories against a fresh in-process leader whose sweeps are driven by a virtual clock (hook H1); reference ledger + in-package snapshot monitors"},
+    "V-value-pure": {"path": "harness/server/c15_pure_test.go", "props": ["C15"], "kind": "differential PBT: ProcessLockData vs. a sequential value interpreter"},
+    "codec": {"path": "harness/protocol/c14_codec_test.go, harness/server/c14_diff_test.go", "props": ["C14"], "kind": "round-trip / offset-table / chunking-independence PBT of the codecs, differential against the server's inlined codec and text-vs-binary execution"},
+    "C-client": {"path": "harness/server/c19_client_test.go", "props": ["C19"], "kind": "PBT of generated goroutine scripts through the Go client over loopback TCP; client-side history oracle with a logical clock"},
 }
+_A_LEVEL = ("Exploration: thousands (quick) to hundreds of thousands (thorough) of generated request/clock histories per run, each on a fresh "
+            "server instance, every reply and an in-package snapshot after every step compared with a reference ledger written from the property "
+            "statement. Sequential histories only: the order of replies equals the order of decisions, timers fire on a harness-driven clock through the "
+            "server's own sweep functions. Interleavings inside the server are not explored by this engine.")
+_A_NOTE = ("Trusted: the reference ledger/monitor in harness/server/ea_monitor_test.go; hook H1 (verif build tag) that keeps the wall-clock sweep goroutines "
+           "off; the in-package snapshot reads the same structures the server uses. Known findings are tolerated only for their listed key.")
 META = {
     "C20": {
         "engine": "Q-queues",
@@ -18,6 +31,39 @@ META = {
         "level_note": ("Trusted: the slice models in the harness; Reset/Rellac only on drained queues (callers' precondition); Shrink checked "
                        "separately and listed as a known finding (dead code)."),
     },
+    "C14": {
+        "engine": "codec",
+        "design_ref": "DESIGN.md §5 C14",
+        "technique": "round-trip, independent offset table, chunking-metamorphic and differential property testing (rapid)",
+        "level_text": ("Exploration over generated field values, arbitrary 64-byte frames, argument lists and delivery plans; oracles are an offset table written from the "
+                       "README / type declarations, an independent RESP writer, an independent key normaliser, and the protocol package as reference for the server's "
+                       "hand-inlined lock codec. Pure functions, so every case is exactly reproducible."),
+        "level_note": "Trusted: the harness' offset table and RESP writer; README offsets exist for the two lock frames only, the other types use their type declarations.",
+    },
+    "C19": {
+        "engine": "C-client",
+        "design_ref": "DESIGN.md §5 C19, §4 Engine C",
+        "technique": "property-based testing of generated concurrent client scripts; validity predicate over the client-side history",
+        "level_text": ("Exploration of real schedules: generated goroutine scripts run through the Go client against an in-process server over loopback TCP; the oracle checks "
+                       "definitely-held intervals on a global logical clock. Scripts are reproducible, schedules are not; a violation is printed with its full history."),
+        "level_note": "Trusted: stamp order (acquire stamped after return, release before the unlock is issued); no follower forwarding; liveness is not judged.",
+    },
 }
+for _p, _t in (("C01", "admission predicate at every grant of a new holder (from the reply ledger and the in-package snapshot)"),
+               ("C02", "ownership, refusal and re-entrant depth arithmetic at every lock/unlock reply; 'changes nothing' through snapshot comparison"),
+               ("C03", "reply multiset per request: exactly one terminal reply, at most one EXPRIED under the right RequestId, right client; checked at every reply and after a drain"),
+               ("C04", "queue order at every grant and 'no admissible head waiter' after every operation and clock second"),
+               ("C05", "TIMEOUT window [T, T+2 s] on the server clock, immediate TIMEOUT for timeout 0, no grant after TIMEOUT"),
+               ("C06", "EXPRIED window [E, E+2 s] (10 s after a shortening), restart on re-lock/update, unlimited never expires, capacity freed and queue served"),
+               ("C17", "LCount/LRCount of every reply and STATE counters against ledger and census after every step; after the drain everything zero, no value, no freed record reachable")):
+    META[_p] = {"engine": "A-virtual-clock", "design_ref": "DESIGN.md §4 Engine A, §5 " + _p,
+                "technique": "stateful property-based testing (rapid) with a reference-model monitor: " + _t,
+                "level_text": _A_LEVEL, "level_note": _A_NOTE}
+META["C15"] = {"engine": "A-virtual-clock + V-value-pure", "design_ref": "DESIGN.md §5 C15",
+               "technique": "differential property testing (rapid) against a sequential value interpreter, pure and through generated lock histories",
+               "level_text": ("Exploration: (a) generated operation sequences on a bare key manager vs. a sequential interpreter (pure, reproducible); (b) value operations carried on generated "
+                              "lock/re-lock/update/unlock histories in engine A, every reply's data and the stored value compared with the interpreter. The Redis-style text commands of the "
+                              "statement are not yet covered by this check."),
+               "level_note": _A_NOTE + " The interpreter is written from the protocol description; typed keys; multi-operation PIPELINEs are a listed known finding."}
 _NOT_BUILT = "check not built yet in this session (planned in DESIGN.md); not claimed rather than faked"
 NOT_APPLICABLE = {f"C{i:02d}": _NOT_BUILT for i in range(1, 21)}
